@@ -392,6 +392,66 @@ def run(ck, ctx):
             ck.ob("R18.4", "FITS reader returns an NssGrid", False, grid, "fits_nssgrid_reader", "")
     ck.guard(r184, "R18.4")
 
+    # ---------------------------------------------------------------- R18.6 sub-grid by selectors (value graph)
+    def r186():
+        """grid[sel0, sel1]: data, axes and names are cut with the same selection, and an axis survives exactly when
+        the data keeps its dimension"""
+        ci = I.cls(GRID_MOD, "NssGrid")
+        st = I.new_state()
+        data = I.input("grid data", kind="array")
+        ax = [I.input("axis 0", kind="array"), I.input("axis 1", kind="array")]
+        obj = I.construct(ci, [data, I.mk("List", tuple(ax)), I.mk("List", (I.const("x"), I.const("y")))], {}, st)
+        sels = [I.input("selector 0", kind="array"), I.input("selector 1")]
+        n0 = len(g.nodes)
+        r = I.run_method(obj, "_slice", [I.mk("Tuple", tuple(sels))], st=st)
+        fn = "NssGrid._slice"
+        if r.value is None:
+            raise AnalysisError("NssGrid._slice has no normal exit")
+        cone = list(walk([I.res(r.value, r.st)]))
+        dsub = [n for n in cone if n.op == "Subscript" and n.args[0].op in ("State", "Attr") and
+                n.args[0].attr == "data" and n.args[1].op == "Tuple"]
+        ck.floor("R18.6", len(dsub), 1, "selections of the grid's data in NssGrid._slice")
+        dsel = list(dsub[0].args[1].args)
+        cls_ = [n for n in cone if n.op == "CondList"]
+        vals = [n for n in cls_ if any(x.op == "Subscript" and x.args[0] in ax for x in n.args[1::2])]
+        nams = [n for n in cls_ if n not in vals and all(x.op == "Const" and isinstance(x.attr, str) for x in n.args[1::2])]
+        ck.floor("R18.6", len(vals), 1, "conditional lists of sliced axes")
+        ck.floor("R18.6", len(nams), 1, "conditional lists of kept axis names")
+        v, nm = vals[0], nams[0]
+        conds_v, items_v = v.args[0::2], v.args[1::2]
+        conds_n, items_n = nm.args[0::2], nm.args[1::2]
+        ok_len = len(items_v) == len(dsel) == len(items_n) == 2
+        ck.ob("R18.6", "one entry per selector in the data index, the axes list and the names list", ok_len, v, fn,
+              f"{len(dsel)} / {len(items_v)} / {len(items_n)}")
+        if not ok_len:
+            return
+        CONV = ("numpy.flatnonzero", "numpy.nonzero", "numpy.argwhere", "numpy.where")
+        for k in range(2):
+            it = items_v[k]
+            same_sel = it.op == "Subscript" and it.args[0] is ax[k] and g.vn(it.args[1]) == g.vn(dsel[k])
+            ck.ob("R18.6", f"axis {k} is cut with the selector that cuts dimension {k} of the data", same_sel, it, fn,
+                  f"{g.show(it, 3)}  vs data index {g.show(dsel[k], 3)}")
+            same_test = g.vn(conds_v[k]) == g.vn(conds_n[k])
+            if not same_test:
+                from ..facets.pred import Pred
+                pr = Pred(I)
+                eq = pr.equivalent(pr.formula(conds_v[k]), pr.formula(conds_n[k]))
+                same_test = bool(eq and eq[0])
+            ck.ob("R18.6", f"axis {k} and its name are kept under one and the same test", same_test
+                  and items_n[k].attr == ("x", "y")[k], conds_n[k], fn,
+                  f"{g.show(conds_v[k], 3)}  vs  {g.show(conds_n[k], 3)}")
+            cnz = [n for n in walk([conds_v[k]]) if is_ext_call(n, "numpy.count_nonzero") or
+                   (n.op == "MCall" and n.attr[0] in ("sum",))]
+            for c in cnz:
+                arg = c.args[1] if c.op == "Call" else c.args[0]
+                conv = [x for x in walk([arg]) if x.op == "Call" and x.args and x.args[0].op == "Ext" and
+                        x.args[0].attr in CONV]
+                ck.ob("R18.6", f"the test 'selector {k} keeps more than one node' counts the selected nodes: the true "
+                      "entries of a mask as given, not the non-zero entries of an index array made from it (node 0 would "
+                      "not count)", not conv and g.vn(arg) in (g.vn(dsel[k]), g.vn(sels[k])), c, fn, g.show(arg, 3)[:160],
+                      construct="NssGrid._slice_axes: which selectors keep their axis")
+    ck.guard(r186, "R18.6")
+
     # ---------------------------------------------------------------- R18.2 slice consistency (value graph)
     def r182():
         im = I.module(INTERP_MOD)
